@@ -83,7 +83,7 @@ def _const_item_expr(facts, path):
 class FnExprs:
     """per-function resolver"""
 
-    def __init__(self, facts, fn):
+    def __init__(self, facts, fn, snapshots=False):
         self.facts = facts
         self.fn = fn
         self.key = fn['key']
@@ -124,6 +124,19 @@ class FnExprs:
                     self.partial.add(d['l'])
             elif t['k'] == 'yield':
                 pass
+        # snapshots: a user-named local of primitive type (integer, bool) that is computed from memory at one point — `let seen =
+        # self.seen;`, `let is_last = self.taken + 1 == self.limit;` — keeps its identity (and its assignment stays a node of the
+        # graph): substituting its defining expression at a later use would read the fields as they are *then*
+        self.kept = set()
+        for n, ds in (self.defs.items() if snapshots else ()):
+            if len(ds) != 1 or ds[0][0] != 'rv' or n not in self.names or n in self.partial or n <= self.argc:
+                continue
+            _k, rv, bi, si = ds[0]
+            t = facts.ty(fn['blocks'][bi]['s'][si]['pl']['t']) if hasattr(facts, 'ty') else None
+            if not t or t.get('k') != 'prim':
+                continue
+            if rv['r'] in ('bin', 'un') or (rv['r'] == 'use' and rv['op']['o'] == 'copy' and rv['op']['pl']['p']):
+                self.kept.add(n)
         self._cache = {}
         self._busy = set()
 
@@ -138,7 +151,7 @@ class FnExprs:
             e = ('arg', n, self.names.get(n) or ('_%d' % n))
         else:
             ds = self.defs.get(n, [])
-            if len(ds) == 1 and n not in self.partial and n not in self._busy and n != 0:
+            if len(ds) == 1 and n not in self.partial and n not in self._busy and n != 0 and n not in self.kept:
                 self._busy.add(n)
                 kind, what, bi, si = ds[0]
                 if kind == 'rv':
@@ -408,6 +421,12 @@ def access_path(e):
             e = e[2][0]
         elif k == 'call' and e[1] in ('std::option::Option::take', 'std::mem::take') and e[2]:
             steps.append('!take')
+            e = e[2][0]
+        elif k == 'call' and e[2] and e[1].rsplit('::', 1)[-1] in ('pop', 'pop_front', 'pop_back', 'remove', 'swap_remove') and \
+                e[1].startswith(('std::vec::Vec', 'std::collections::VecDeque', 'smallvec::SmallVec')):
+            # an element moved out of a list: no longer in the list (like take() for a slot)
+            steps.append('!take')
+            steps.append('[]')
             e = e[2][0]
         elif k == 'call' and e[1] == 'std::iter::Iterator::flatten' and e[2]:
             # an element of flatten(I) is the payload of an element of I
